@@ -4,6 +4,7 @@ import (
 	"bytes"
 	"crypto"
 	"crypto/ecdsa"
+	"crypto/elliptic"
 	"crypto/sha1"
 	"crypto/sha256"
 	"encoding/base64"
@@ -231,6 +232,19 @@ func buildObjects() {
 			if b, err := x509.MarshalECPrivateKey(p); err == nil {
 				o.ECPriv = append(o.ECPriv, b)
 			}
+			// SEC1 / PKCS#8 keys whose private scalar field has an unusual length: zero-padded by
+			// 1..4 octets (seen in the wild), padded with a non-zero octet, cut short, empty
+			if oid := curveOID(p.Curve.Params().Name); oid != nil && len(o.ECPriv) <= 3 {
+				d := p.D.Bytes()
+				pub := elliptic.Marshal(p.Curve, p.X, p.Y)
+				for _, scalar := range [][]byte{append([]byte{0}, d...), append([]byte{0, 0}, d...), append([]byte{0, 0, 0}, d...), append(make([]byte, 4), d...),
+					append([]byte{1}, d...), append([]byte{0, 1}, d...), d[:len(d)-1], d[:1], {}, append(make([]byte, 40), d...)} {
+					sec1 := der.Seq(der.Int64(1), der.Octets(scalar), der.Ctx(0, true, oid), der.Ctx(1, true, der.BitString(pub)))
+					o.ECPriv = append(o.ECPriv, sec1)
+					inner := der.Seq(der.Int64(1), der.Octets(scalar))
+					o.PKCS8 = append(o.PKCS8, der.Seq(der.Int64(0), der.Seq(der.OID(1, 2, 840, 10045, 2, 1), oid), der.Octets(inner)))
+				}
+			}
 		}
 	}
 	o.PKCS1Priv = append(o.PKCS1Priv, SeedData("pkcs1priv-")...)
@@ -392,4 +406,18 @@ func BuildOneCRL(issuer, subject []byte) []byte {
 	}}
 	out, _ := json.Marshal(doc)
 	return out
+}
+
+func curveOID(name string) []byte {
+	switch name {
+	case "P-224":
+		return der.OID(1, 3, 132, 0, 33)
+	case "P-256":
+		return der.OID(1, 2, 840, 10045, 3, 1, 7)
+	case "P-384":
+		return der.OID(1, 3, 132, 0, 34)
+	case "P-521":
+		return der.OID(1, 3, 132, 0, 35)
+	}
+	return nil
 }
